@@ -1,4 +1,6 @@
 import BqVerif.Model.RuntimeWitness
+import BqVerif.Model.FineWake
+import BqVerif.Model.MapArgs
 import BqVerif.Drivers.Util
 /-!
 Driver for the `runtime` machine (C07, C12, C15): replays the transition log of
@@ -133,6 +135,9 @@ def parseProg : List Nat → Option Prog
   | 4 :: k :: t => (parseProg t).map (Instr.cancel k :: ·)
   | 5 :: t => (parseProg t).map (Instr.raise :: ·)
   | 6 :: t => (parseProg t).map (Instr.ret :: ·)
+  | 7 :: n :: t =>
+    (parseProg (((t.drop n).drop 1).drop ((t.drop n).headD 0))).map
+      (Instr.mapArgs (t.take n) (((t.drop n).drop 1).take ((t.drop n).headD 0)) :: ·)
   | _ => none
 termination_by l => l.length
 decreasing_by all_goals simp_wf <;> omega
@@ -163,6 +168,53 @@ def witnessLines (name : String) : String :=
   | none => "unknown-witness"
 
 
+/-! ### source-line model (`Model/FineWake.lean`): `fine <lk> <bits>` prints the state before every
+    step and the final state; `fine-paths <lk>` prints one shortest schedule per reachable state -/
+namespace Fine
+open BqVerif.FineWake
+
+def sBox (b : FBox) : String := s!"{if b.present then 1 else 0}{b.num}{if b.dest then 1 else 0}"
+def sMain : MainPc → String
+  | .pa l m => s!"pa{l}.{m}"
+  | .loop k => s!"loop{k}"
+  | .failed => "failed"
+  | .finished => "finished"
+def sInc : InPc → String
+  | .hr l m => s!"hr{l}.{m}"
+  | .crashed => "crashed"
+  | .done => "done"
+def sLock : Holder → String
+  | .free => "-"
+  | .mainT => "M"
+  | .incT => "I"
+def sState (s : FState) : String :=
+  let d := match s.desired with | none => "-" | some m => toString m
+  s!"{sMain s.main} {sInc s.inc} {sLock s.lock} {sBox s.box0} {sBox s.box1} {d} {if s.wakeNext then 1 else 0} {s.ready} {s.maxReady}"
+
+def bitsOf (t : String) : List Bool := t.toList.filterMap (fun c => if c == '1' then some true else if c == '0' then some false else none)
+def sBits (l : List Bool) : String := String.ofList (l.map (fun b => if b then '1' else '0'))
+
+def trace (lk : Bool) (s : FState) : List Bool → List String
+  | [] => [sState s]
+  | b :: t => sState s :: trace lk (step lk s b) t
+
+partial def bfs (lk : Bool) (seen : List (FState × List Bool)) (frontier : List (FState × List Bool)) :
+    List (FState × List Bool) :=
+  match frontier with
+  | [] => seen
+  | _ =>
+    let (seen', next) := frontier.foldl (fun (acc : List (FState × List Bool) × List (FState × List Bool)) x =>
+      [true, false].foldl (fun acc b =>
+        let y := step lk x.1 b
+        if acc.1.any (fun z => z.1 == y) then acc else (acc.1 ++ [(y, x.2 ++ [b])], acc.2 ++ [(y, x.2 ++ [b])])) acc)
+      (seen, [])
+    bfs lk seen' next
+
+def paths (lk : Bool) : String :=
+  " ".intercalate ((bfs lk [({}, [])] [({}, [])]).map (fun x => "p" ++ sBits x.2))
+
+end Fine
+
 structure St where
   hdr : List String := []
   tbl : Table := []
@@ -177,6 +229,8 @@ def render (n : Net) (acting : NodeId) (r : TrOut) : String :=
 def step (st : St) (line : String) : St × String :=
   match groups line with
   | ["witness", name] :: _ => (st, witnessLines name)
+  | ["fine", lk, bits] :: _ => (st, " ;; ".intercalate (Fine.trace (lk == "1") {} (Fine.bitsOf bits)))
+  | ["fine-paths", lk] :: _ => (st, Fine.paths (lk == "1"))
   | ("begin" :: rest) :: _ => ({ hdr := rest }, "ok")
   | ("prog" :: _pid :: toks) :: _ =>
     match nats toks >>= parseProg with
